@@ -548,6 +548,35 @@ def prop_positions(p):
     return out
 
 
+def partial_alias_dependency(p):
+    """Does some event reference an alias that is bound by only some alternatives of an earlier
+    disjunction in a position that canonical_form splits (activator; behaviour of no/requires/
+    forbids; trigger of causes)?  Then no valid per-alternative decomposition exists."""
+    pos = prop_positions(p)
+    pk = p[3][1]
+    split = ['activator']
+    if pk in ('no', 'requires', 'forbids'):
+        split.append('behaviour')
+    elif pk == 'causes':
+        split.append('trigger')
+    for sp in split:
+        ev = pos.get(sp)
+        if ev is None or ev[0] != 'disj':
+            continue
+        alts = ev[1]
+        names = {a[2] for a in alts if a[2] is not None}
+        partial = {n for n in names if not all(a[2] == n for a in alts)}
+        if not partial:
+            continue
+        for other, oev in pos.items():
+            if other == sp:
+                continue
+            for se in simple_events(oev):
+                if se[3] is not None and (free_vars(se[3]) - ({se[2]} if se[2] else set())) & partial:
+                    return True
+    return False
+
+
 def prop_shape(p):
     _, meta, scope, pat = p
     pos = prop_positions(p)
